@@ -24,7 +24,18 @@ struct ExecResult {
   uint64_t traceHash = 0;
   Counters stats;               // fault kinds fired, probes, ticks ...
   std::vector<uint64_t> stateHashes;  // exposed states (bounded sample)
-  std::vector<uint64_t> schedHashes;  // per-op grant sequence hashes
+  std::vector<uint64_t> schedHashes;  // per-op grant sequence hashes (not part of traceHash, see detHash)
+  bool schedDegraded = false;         // the scheduler had given up in this process (sched.cpp): schedHashes mean nothing
+  // Hash used to compare two executions of the same plan for determinism: the event trace
+  // plus the grant sequences the scheduler produced.  The grant sequences are left out of
+  // traceHash itself because traceHash is also compared between processes with different
+  // histories, and a scheduler that gave up earlier in a process produces none.
+  uint64_t detHash() const {
+    if (schedDegraded) return traceHash;
+    uint64_t h = traceHash;
+    for (auto g : schedHashes) h = mix64(h, g);
+    return h;
+  }
   std::vector<std::string> trace;     // textual trace (bounded)
 };
 
@@ -65,6 +76,7 @@ struct Tracer {
   HashChain chain;
   Tracer(ExecResult &r, const ExecOptions &o) : res(r), opt(o) {}
   void ev(const std::string &line);
+  void note(const std::string &line);  // shown in textual traces, not hashed
   void finish() { res.traceHash = chain.h; }
 };
 
